@@ -17,8 +17,12 @@ MCInputs3x3 == InputsOf(3, T3, G1, 3)
 \* one run for both arities: JInit keeps the pairs with Len(parents) = cfg.n
 MCConfigsQuick == MCConfigs2 \cup MCConfigs3q
 MCInputsQuick == MCInputs2x3 \cup MCInputs3x2
-MCConfigsThorough == MCConfigs2 \cup MCConfigs3
+MCConfigs3t == { JCfg(3, f, t) : f \in {"none", "null"}, t \in Tols }
+MCConfigsThorough == MCConfigs2 \cup MCConfigs3t
 MCInputsThorough == MCInputs2x3 \cup MCInputs3x3 \cup MCInputs2x2g
+
+MCInputs2x2 == InputsOf(2, T3, G1, 2)
+MCConfigsBar == { JCfg(2, f, t) : f \in {"none", "null"}, t \in Tols }
 
 \* join.on('b'): parent 1 grouped by b (groups x, y), parent 2 by b,f (x1, x2, y1)
 OnOf == [x |-> "x", y |-> "y", x1 |-> "x", x2 |-> "x", y1 |-> "y"]
